@@ -1433,6 +1433,7 @@ package sftp
 //@   update before call (*clientConn).putChannel#1: ghost.idFresh = false
 //@   update after call (*conn).sendPacket#1: ghost.consumeOK = ret != nil
 //@   update after call (*conn).sendPacket#1: ghost.consumeSid = sid
+//@   interference after call (*conn).sendPacket#1: mapof c.inflight
 //@   update after call (*clientConn).getChannel#1: ghost.routed = ret0
 //@   assert before send ch#1: arg0 == ghost.routed && m_err_nonnil(arg1)
 // (a send error is delivered on the channel that is registered for the id at that moment -- broadcastErr may have
